@@ -125,7 +125,7 @@ def dataflow(lines):
         else:
             q = t[1]
             if q in ("equiv", "implied", "semeq"): ops = [int(t[2]), int(t[3])]
-            elif q in ("obs", "enum", "eval", "preds", "show", "csvout", "render"): ops = [int(t[2])]
+            elif q in ("obs", "enum", "eval", "preds", "show", "csvout", "csvdef", "render", "display", "fresh", "weight", "repr", "row", "pycopy", "pyfrom", "roundtrip"): ops = [int(t[2])]
             per_line.append(([o for o in ops if o < len(kinds)], None))
     return per_line, taint
 
@@ -199,6 +199,32 @@ def check(prop, tier, seed):
         return 1
 
     results, impl, model, problems = run_cases(prop, cases, "--twice" if prop == "C20" else "") if okd else ([], {}, {}, [])
+    if prop == "C19" and okd:
+        okp, outp = common.build_pymodule()
+        if not okp:
+            path = write_replay(prop, "build", None, [], [], {}, {}, note="the Python extension module does not build:\n" + outp[-3000:])
+            print("VIOLATION property=%s replay=%s no-failing-input-found" % (prop, path)); violations += 1
+        else:
+            paths = [os.path.join(common.CASES, prop, f) for f in sorted(os.listdir(os.path.join(common.CASES, prop)))]
+            py, called, pyproblems = common.run_python(paths)
+            byid = {c["id"]: c for c in cases}
+            pyfail = []
+            for (cid, ln), ppay in py.items():
+                why = diff.compare_python(ppay, impl.get((cid, ln)), byid[cid]["lines"][ln - 1])
+                if why and not known_for_line(prop, byid[cid], ln, load_known()): pyfail.append((cid, ln, why))
+            missing_lines = [k for k in impl if k not in py]
+            methods = common.python_methods()
+            uncalled = sorted(m for m in methods if m not in called)
+            coverage["python_methods"] = len(methods); coverage["python_methods_called"] = len(methods) - len(uncalled)
+            coverage["python_uncalled"] = uncalled; coverage["python_lines_compared"] = len(py)
+            for cid, ln, why in pyfail[:5]:
+                path = write_replay(prop, "python", byid[cid], [], [(ln, [("python", w) for w in why])], py, impl)
+                print("VIOLATION property=%s replay=%s" % (prop, path))
+            violations += len(pyfail)
+            if pyproblems or missing_lines or uncalled:
+                note = "\n".join(pyproblems + (["%d lines have no Python output" % len(missing_lines)] if missing_lines else []) + (["methods never called: " + ", ".join(uncalled)] if uncalled else []))
+                path = write_replay(prop, "python_run", None, [], [], {}, {}, note=note)
+                print("VIOLATION property=%s replay=%s no-failing-input-found" % (prop, path)); violations += 1
     if prop == "C20" and okd:
         # the same cases in further separate processes (fresh hash seeds): every observation must be identical
         paths = [os.path.join(common.CASES, prop, f) for f in sorted(os.listdir(os.path.join(common.CASES, prop)))]
